@@ -114,7 +114,7 @@ def _dw_case(case):
     out = {"failures": fails, "canon": dw.canon(sa), "nontrivial": len(history) > 0,
            "outcome": tuple(round(float(x), 9) for x in res[:1])}
     if case.get("want_events", False):
-        out["events"] = dw.events(sa, config.get("s", 1))
+        out["events"] = dw.events_for(sa, config)
     return out
 
 
@@ -239,9 +239,11 @@ def run_case(case):
 def configs(tier):
     out = []
 
-    def dwc(d, lmin, lmax, version, reb, bnd, D, s, modified=False, a=None, b=None):
+    def dwc(d, lmin, lmax, version, reb, bnd, D, s, modified=False, a=None, b=None, towards=None):
         c = {"strategy": "dw", "d": d, "lmin": lmin, "lmax": lmax, "version": version, "rebalancing": reb,
              "boundary": bnd, "modified_basis": modified, "s": s}
+        if towards:
+            c["towards"] = towards
         if a is not None:
             c["a"], c["b"] = a, b
         out.append((c, D))
@@ -280,7 +282,16 @@ def configs(tier):
         dwc(2, 1, 2, 6, False, False, 2, 1, modified=True)
         dwc(2, 1, 2, 6, False, True, 2, 1, a=[-1.0, 2.0], b=[3.0, 4.0])
         dwc(3, 1, 2, 6, False, True, 1, 1)
+        for version in (6, 7, 8, 2, 3):
+            dwc(2, 1, 2, version, False, True, 4, 1, towards=[[0.3, 0.3], [0.3, 0.8]])
+        dwc(2, 1, 2, 6, False, False, 4, 1, modified=True, towards=[[0.3, 0.3]])
+        dwc(3, 1, 2, 6, False, True, 3, 1, towards=[[0.3, 0.3, 0.3]])
     else:
+        for version in (6, 7, 8, 2, 3):
+            for bnd in (True, False):
+                dwc(2, 1, 2, version, False, bnd, 6, 1, towards=[[0.3, 0.3], [0.3, 0.8], [0.6, 0.1]])
+            dwc(3, 1, 2, version, False, True, 4, 1, towards=[[0.3, 0.3, 0.3], [0.8, 0.3, 0.6]])
+            dwc(2, 1, 2, version, False, False, 5, 1, modified=True, towards=[[0.3, 0.3], [0.3, 0.8]])
         for version in (0, 1, 2):
             for nref in (1, 2):
                 esc(2, 2, version, nref, 3, 2)
@@ -350,7 +361,8 @@ def main(ctx):
                                       "boundary": True, "modified_basis": False, "s": 1},
                            "history": [[[0, 0.0, 0.25]], [[0, 0.0, 0.125], [1, 0.5, 0.75]]]})
     for config, D in configs(ctx.tier):
-        tag = "_".join("%s%s" % (k[:3], v) for k, v in config.items() if k not in ("a", "b")) + ("_box" if "a" in config else "") + "_D%d" % D
+        tag = "_".join("%s%s" % (k[:3], v) for k, v in config.items() if k not in ("a", "b", "towards")) + ("_box" if "a" in config else "") + \
+              ("_towards" if config.get("towards") else "") + "_D%d" % D
         ctx.bounds[tag] = core.bfs(ctx, config, D, tag=tag)
     cases = real_cases(ctx.tier)
     for case, res in zip(cases, ctx.map(cases, chunksize=1)):
